@@ -11,6 +11,7 @@ import base64
 import functools
 import http.cookiejar
 import io
+import os
 import re
 
 from simlib.env import SimEnv, SimDeadlock, SimBudgetExceeded, task_stacks
@@ -42,7 +43,7 @@ LEVELS = {'C16': 'exploration', 'C18': 'exploration'}
 PROBES = {
     'C16': ['redirect.301', 'redirect.302', 'redirect.303', 'redirect.307', 'redirect.308', 'cross_host_redirect', 'cross_scheme_redirect',
             'repeat_redirect_cross_host', 'userinfo_url', 'idn_host', 'ipv6_host', 'ipv4_host', 'nondefault_port', 'cookie_set',
-            'cookie_sent', 'foreign_domain_cookie', 'domain_cookie_from_host_without_domain', 'auth_challenge', 'auth_sent', 'referer_https_to_http', 'encoded_path',
+            'app_layer', 'app_layer_with_header_option', 'cookie_sent', 'foreign_domain_cookie', 'domain_cookie_from_host_without_domain', 'auth_challenge', 'auth_sent', 'referer_https_to_http', 'encoded_path',
             'relative_location', 'keepalive_reuse', 'proxy', 'proxy_absolute_form', 'proxy_connect', 'idle_close', 'followup_visit', 'referrer_with_userinfo', 'proxy_connect_refused'],
     'C18': ['redirect_cycle', 'unbounded_chain', 'limit_reached', 'perpetual_401', 'missing_location', 'bad_location', 'max_redirect_0',
             'server_5xx', 'reset', 'stall_timeout', 'auth_retry'],
@@ -257,8 +258,56 @@ def parse_request(raw):
     return method, target, version, fields, errors
 
 
+def run_app_layer(tape, r):
+    """The whole application on a small site of two or three hosts, with user supplied header fields (--header): what the
+    request factory prepares once must not carry anything of one URL into the request for another (Host above all)."""
+    import shutil
+    import tempfile
+    from harness import crawl
+    from refs import site as refsite
+    sandbox = tempfile.mkdtemp(prefix='wv-c16app-%d-' % os.getpid(), dir='/dev/shm')
+    cwd = os.getcwd()
+    try:
+        os.chdir(sandbox)
+        site, starts, pages, assets, redirects = refsite.gen_site(tape, nhosts=tape.choice((2, 3), 'app.nhosts'), npages=tape.between(3, 6, 'app.npages'))
+        site.finalize()
+        opts = {'recursive': True, 'level': 'inf', 'page_requisites': tape.chance(1, 2, 'app.p'), 'span_hosts': True, 'tries': 2}
+        extra = []
+        if tape.chance(3, 4, 'app.header'):
+            extra += ['--header', tape.choice(('X-Verif: yes', 'Accept-Language: en', 'X-A: 1'), 'app.header.v')]
+            if tape.chance(1, 3, 'app.header2'):
+                extra += ['--header', 'X-B: two']
+            r.probes['app_layer_with_header_option'] += 1
+        if tape.chance(1, 3, 'app.referer'):
+            extra += ['--referer', 'http://elsewhere.test/from.html']
+        argv = crawl.argv_for(opts, [s.url for s in starts], os.path.join(sandbox, 'db.sqlite'), extra=extra)
+        out = crawl.run_app(tape, r, site, argv, tape.choice((1, 2, 3), 'app.concurrency'), sandbox)
+        r.probes['app_layer'] += 1
+        hosts = set()
+        for e in out['server'].log:
+            scheme, host, port = e['origin']
+            hosts.add(host)
+            want = host if port == DEFAULT_PORT.get(scheme) else '%s:%d' % (host, port)
+            got = e['fields'].get('host', [])
+            if len(got) != 1 or got[0].lower() != want.lower():
+                r.violate('C16', 'host-field', 'stale-or-wrong:application', 'request %s %s on a connection to %s carries Host %r (options %r)'
+                          % (e['method'], e['target'], want, got, extra))
+                break
+        if out.get('hang'):
+            r.violate('C16', 'hang', 'application', out['hang'][:600])
+        r.workload = ('app', [s.url for s in starts], extra, [(x.kind, x.url) for x in site.order][:40])
+        r.nontrivial = len(hosts) >= 2
+        r.sample = {'layer': 'application', 'argv_extra': extra, 'requests': [(e['origin'][1], e['target'], e['fields'].get('host')) for e in out['server'].log][:12]}
+    finally:
+        os.chdir(cwd)
+        shutil.rmtree(sandbox, ignore_errors=True)
+    return r
+
+
 def run(tape, prop, tier):
     r = Result()
+    if prop == 'C16' and tape.chance(1, 12, 'app_layer'):
+        return run_app_layer(tape, r)
     adversarial = prop == 'C18' or tape.chance(1, 6, 'adversarial')
     max_redirect = tape.choice((20, 5, 2, 1, 0), 'max_redirect') if adversarial else tape.choice((20, 5, 3), 'max_redirect')
     use_cookies = tape.chance(3, 4, 'cookies')
